@@ -8,16 +8,40 @@ import (
 	"sync"
 )
 
-var verifStoppedLoops sync.Map
-
-func (a *asyncFifoRetryImpl) verifStopped() bool {
-	_, ok := verifStoppedLoops.LoadAndDelete(a)
-	return ok
+// verifFields is the per-loop state of the hooks (no global registry: a stopped loop must become garbage)
+type verifFields struct {
+	mu      sync.Mutex
+	stop    chan struct{}
+	stopped bool
 }
 
-// StopForVerif makes Run return at its next tick
+func (a *asyncFifoRetryImpl) verifStopChan() <-chan struct{} {
+	a.verif.mu.Lock()
+	defer a.verif.mu.Unlock()
+	if a.verif.stop == nil {
+		a.verif.stop = make(chan struct{})
+	}
+	return a.verif.stop
+}
+
+func (a *asyncFifoRetryImpl) verifStopped() bool {
+	a.verif.mu.Lock()
+	defer a.verif.mu.Unlock()
+	return a.verif.stopped
+}
+
+// StopForVerif makes Run return at once
 func (a *asyncFifoRetryImpl) StopForVerif() {
-	verifStoppedLoops.Store(a, struct{}{})
+	a.verif.mu.Lock()
+	defer a.verif.mu.Unlock()
+	if a.verif.stopped {
+		return
+	}
+	a.verif.stopped = true
+	if a.verif.stop == nil {
+		a.verif.stop = make(chan struct{})
+	}
+	close(a.verif.stop)
 }
 
 // RetryNowForVerif runs the repair step for every queued entry that is due, in the caller's goroutine
